@@ -22,7 +22,7 @@ def run(ck):
         items.append((c.T, c.key, f, {"case": c, "orig": f, "valid": True}))
         # the same authentic file presented to runs with OTHER worker counts (the count is not stored in the file): the body then starts
         # elsewhere and need not be a whole number of blocks; whatever is decrypted, it is bounded by what was read
-        for T2 in r.sample([t for t in (1, 2, 3, 4, 5, 7, 16) if t != c.T], 2):
+        for T2 in [t for t in range(1, 17) if t != c.T]:
             items.append((T2, c.key, f, {"case": c, "orig": f, "valid": True, "forged": "authentic/other-worker-count"}))
     for T, key, f, cls in forged(r, 120 if big else 50):
         items.append((T, key, f, {"forged": cls, "valid": True}))
